@@ -237,7 +237,7 @@ func c16Sessions(c *core.Collector, x *Ctx) {
 		g := gen.G{Rand: core.NewRand(c.Seed, "c16s", uint64(i))}
 		p := attGenPlan(g, i, true)
 		p.Gen = "gaps-then-resend"
-		attPartition(g, p, i%5)
+		attPartition(g, p, i%6)
 		hasGap := false
 		for _, f := range p.Files {
 			if len(f.Resend) > 0 {
